@@ -197,13 +197,18 @@ func FlatMap[T, U any](opt fp.Iterator[T], fn func(v T) fp.Iterator[U]) fp.Itera
 
 func Flap[A, R any](tfa fp.Iterator[fp.Func1[A, R]]) func(A) fp.Iterator[R] {
 	return func(a A) fp.Iterator[R] {
-		return Ap(tfa, Of(a))
+		// not Ap(tfa, Of(a)): the one-shot Of(a) would be drained by the first function
+		return Map(tfa, func(f fp.Func1[A, R]) R {
+			return f(a)
+		})
 	}
 }
 
 func Flap2[A, B, R any](tfab fp.Iterator[fp.Func1[A, fp.Func1[B, R]]]) fp.Func1[A, fp.Func1[B, fp.Iterator[R]]] {
 	return func(a A) fp.Func1[B, fp.Iterator[R]] {
-		return Flap(Ap(tfab, Of(a)))
+		return Flap(Map(tfab, func(f fp.Func1[A, fp.Func1[B, R]]) fp.Func1[B, R] {
+			return f(a)
+		}))
 	}
 }
 
@@ -612,7 +617,9 @@ var _ = genfp.GenerateFromUntil{
 	Template: `
 func Flap{{.N}}[{{TypeArgs 1 .N}}, R any](tf fp.Iterator[{{CurriedFunc 1 .N "R"}}]) {{CurriedFunc 1 .N "fp.Iterator[R]"}} {
 	return func(a1 A1) {{CurriedFunc 2 .N "fp.Iterator[R]"}} {
-		return Flap{{dec .N}}(Ap(tf, Of(a1)))
+		return Flap{{dec .N}}(Map(tf, func(f {{CurriedFunc 1 .N "R"}}) {{CurriedFunc 2 .N "R"}} {
+			return f(a1)
+		}))
 	}
 }
 
